@@ -6,6 +6,7 @@ import (
 	"bufio"
 	"fmt"
 	"io"
+	"os"
 	"os/exec"
 	"strconv"
 	"strings"
@@ -20,6 +21,7 @@ type solverStats struct {
 	Errors    int
 	TimeNs    int64
 	CacheHits int
+	Retries   int
 }
 
 type solver struct {
@@ -30,6 +32,7 @@ type solver struct {
 	stats solverStats
 	log   io.Writer // optional transcript
 	dead  bool
+	intEnc bool
 }
 
 // solverCommand returns argv for a named back end.
@@ -44,7 +47,7 @@ func solverCommand(name string, timeoutMs int) []string {
 	}
 }
 
-func newSolver(name string, timeoutMs int) (*solver, error) {
+func newSolver(name string, timeoutMs int, intEnc bool) (*solver, error) {
 	argv := solverCommand(name, timeoutMs)
 	cmd := exec.Command(argv[0], argv[1:]...)
 	in, err := cmd.StdinPipe()
@@ -60,10 +63,18 @@ func newSolver(name string, timeoutMs int) (*solver, error) {
 		return nil, err
 	}
 	s := &solver{name: name, cmd: cmd, in: in, out: bufio.NewReaderSize(out, 1<<16)}
+	if dir := os.Getenv("GOSYM_SOLVERLOG"); dir != "" {
+		f, _ := os.CreateTemp(dir, "solver-*.smt2")
+		s.log = f
+	}
 	if name == "cvc5" {
 		s.send("(set-logic ALL)")
 	}
 	s.send("(set-option :produce-models true)")
+	s.intEnc = intEnc
+	if intEnc {
+		s.send(intPreamble)
+	}
 	return s, nil
 }
 
@@ -102,16 +113,32 @@ func (s *solver) readLine() string {
 // reported as unknown and counted).
 func (s *solver) checkSat() string {
 	t0 := time.Now()
-	s.send("(check-sat)")
+	ask := func(cmd string) string {
+		s.send(cmd)
+		for {
+			l := s.readLine()
+			if l != "" {
+				return l
+			}
+		}
+	}
 	var line string
-	for {
-		line = s.readLine()
-		if line != "" {
-			break
+	if s.name == "cvc5" || s.intEnc {
+		line = ask("(check-sat)")
+	} else {
+		// z3's incremental core is weak on bit-vector arithmetic once
+		// push/pop has been used; the qfbv tactic (bit-blasting) is not.
+		line = ask("(check-sat-using qfbv)")
+		if line != "sat" && line != "unsat" && !s.dead {
+			s.stats.Retries++
+			line = ask("(check-sat)")
 		}
 	}
 	s.stats.Queries++
 	s.stats.TimeNs += time.Since(t0).Nanoseconds()
+	if s.log != nil {
+		fmt.Fprintf(s.log, "; time %.3fs\n", time.Since(t0).Seconds())
+	}
 	switch line {
 	case "sat":
 		s.stats.Sat++
@@ -199,12 +226,20 @@ func (s *solver) getValues(vars []*term) map[string]uint64 {
 		case strings.HasPrefix(v, "#b"):
 			val, _ = strconv.ParseUint(v[2:], 2, 64)
 		case v == "(":
-			// (_ bvN W)
-			next() // _
-			bv := next()
-			next() // width
-			next() // )
-			val, _ = strconv.ParseUint(strings.TrimPrefix(bv, "bv"), 10, 64)
+			// (_ bvN W) or (- N)
+			h := next()
+			if h == "-" {
+				n, _ := strconv.ParseUint(next(), 10, 64)
+				next() // )
+				val = -n
+			} else {
+				bv := next()
+				next() // width
+				next() // )
+				val, _ = strconv.ParseUint(strings.TrimPrefix(bv, "bv"), 10, 64)
+			}
+		default:
+			val, _ = strconv.ParseUint(v, 10, 64)
 		}
 		next() // )
 		res[name] = val
